@@ -9,6 +9,7 @@ import (
 	"math/rand"
 	"os"
 	"path/filepath"
+	"regexp"
 	"strings"
 	"sync"
 	"sync/atomic"
@@ -27,16 +28,19 @@ import (
 // ---- a debugger brought into a state class -------------------------------------------------------------
 
 type dbgEnv struct {
-	erp   *interpreter.ECALRuntimeProvider
-	dbg   util.ECALDebugger
-	vs    parser.Scope
-	tid   uint64
-	done  chan struct{}
-	st    string
-	res   interface{}
-	err   error
-	ended int32
+	erp      *interpreter.ECALRuntimeProvider
+	dbg      util.ECALDebugger
+	vs       parser.Scope
+	tid      uint64
+	done     chan struct{}
+	st       string
+	res      interface{}
+	err      error
+	ended    int32
+	busyDone chan struct{}
 }
+
+var goidRe = regexp.MustCompile(`goroutine \d+`)
 
 var dbgSpin int32
 
@@ -63,7 +67,8 @@ var dbgPrograms = map[string][2]string{ // state class -> (source, breakpoint li
 	"running":  {"x := 1\nfor verif.spin() {\n    mutex m1 {\n        y := 1\n    }\n    mutex m2 {\n        y := 2\n    }\n}\n", ""},
 	"suspTop":  {"x := 1\ny := 2\nz := 3\nw := 4\n", "2"},
 	"suspCall": {"x := 1\nfunc g(p) {\n    v := p\n    return v + 1\n}\nfunc f(q) {\n    return g(q) + 1\n}\nres := f(1)\nlast := 1\n", "3"},
-	"suspErr":  {"x := 1\nfunc f() {\n    raise(\"E\")\n}\nf()\nlast := 1\n", ""},
+	"suspBusy": {"x := 1\nfunc g(p) {\n    v := p\n    return v + 1\n}\nfunc f(q) {\n    return g(q) + 1\n}\nres := f(1)\nlast := 1\n", "3"},
+	"suspErr":  {"x := 1\nfunc f() {\n    raise(\"E\", \"detail\", {1 : [2, {3 : 4}], \"k\" : 5})\n}\nf()\nlast := 1\n", ""},
 	"suspOdd": {"x := 1\nfn := func() {\n    return 1\n}\ninf := math.inf(1)\nnan := math.naN()\ndeep := [[[[[[[[[[[[1]]]]]]]]]]]]\nm := {\"a\" : 1, 2 : [fn]}\nm.self := m\nl := [1, [2]]\nl[1][0] := l\n" +
 		"func h() {\n    return 1\n}\nq := h()\ny := 2\nz := 3\n", "16"},
 	"finished": {"x := 1\n", ""},
@@ -102,6 +107,23 @@ func newDbgEnv(st string) (*dbgEnv, string) {
 		e.res, e.err = ast.Runtime.Eval(vs, make(map[string]interface{}), e.tid)
 		e.dbg.RecordThreadFinished(e.tid)
 	}()
+	if st == "suspBusy" {
+		// a second thread which enters and leaves functions all the time (every call asks for the debugger's write lock)
+		ast2, err2 := parser.ParseWithRuntime("busy", "func h(a) {\n    return a\n}\nfor verif.spin() {\n    q := h(1)\n    q := h(q)\n}\n", erp)
+		if err2 == nil {
+			err2 = ast2.Runtime.Validate()
+		}
+		if err2 != nil {
+			return nil, "busy program does not parse: " + err2.Error()
+		}
+		tid2 := erp.NewThreadID()
+		e.busyDone = make(chan struct{})
+		go func() {
+			defer close(e.busyDone)
+			ast2.Runtime.Eval(scope.NewScope(scope.GlobalScope), make(map[string]interface{}), tid2)
+			e.dbg.RecordThreadFinished(tid2)
+		}()
+	}
 	switch st {
 	case "finished":
 		select {
@@ -165,8 +187,8 @@ func (e *dbgEnv) observe() string {
 				if d["error"] != nil {
 					return "suspErr"
 				}
-				if e.st == "suspOdd" {
-					return "suspOdd"
+				if e.st == "suspOdd" || e.st == "suspBusy" {
+					return e.st
 				}
 				if cs, ok := d["callStack"].([]string); ok && len(cs) > 0 {
 					return "suspCall"
@@ -187,11 +209,20 @@ func (e *dbgEnv) observe() string {
 func (e *dbgEnv) close() {
 	atomic.StoreInt32(&dbgSpin, 0)
 	for k := 0; k < 50; k++ {
-		e.dbg.StopThreads(0)
+		// a debugger whose lock was left behind would hold the clean-up for ever
+		if pm, hung := guarded(2*time.Second, func() { e.dbg.StopThreads(0) }); pm != "" || hung != "" {
+			break
+		}
 		select {
 		case <-e.done:
 			k = 50
 		case <-time.After(20 * time.Millisecond):
+		}
+	}
+	if e.busyDone != nil {
+		select {
+		case <-e.busyDone:
+		case <-time.After(time.Second):
 		}
 	}
 	dbgSuspMu.Lock()
@@ -199,7 +230,7 @@ func (e *dbgEnv) close() {
 	dbgSuspMu.Unlock()
 }
 
-var dbgTokText = map[string]string{"tidx": "7777", "neg": "-1", "huge": "99999999999999999999", "float": "1.5", "word": "abc", "sl": "prog:2", "slx": "nosuch:3", "sln": "prog:-1",
+var dbgTokText = map[string]string{"num": "42", "tidx": "7777", "neg": "-1", "huge": "99999999999999999999", "float": "1.5", "word": "abc", "sl": "prog:2", "slx": "nosuch:3", "sln": "prog:-1",
 	"slh": "prog:99999999999999999999", "slw": "prog:x", "sle": "prog:", "cl": ":5", "sll": "a:1:2", "src": "prog", "resume": "resume", "stepin": "stepin", "stepover": "stepover",
 	"stepout": "stepout", "STEPIN": "STEPIN", "var": "x", "novar": "zz", "badname": "1x", "expr": "1+2", "badexpr": "((", "true": "true", "false": "false"}
 
@@ -311,13 +342,17 @@ func C16(r *ev.Run) {
 	}
 	var trace []interface{}
 	var recs []*dbgRec
+	broken := 0 // lines after which the debugger panicked, hung or stopped answering: each costs its time bounds
 	emit := func(rec *dbgRec) {
 		recs = append(recs, rec)
 		trace = append(trace, rec)
 		r.Case(rec.St+"|"+rec.line, len(rec.A) > 0)
+		if rec.Class == "fault" || !rec.Alive {
+			broken++
+		}
 	}
 	t0 := time.Now()
-	states := []string{"fresh", "running", "suspTop", "suspCall", "suspErr", "suspOdd", "finished"}
+	states := []string{"fresh", "running", "suspTop", "suspCall", "suspErr", "suspOdd", "suspBusy", "finished"}
 	setupFail := func(st, why string) {
 		r.Violation("C16 state cannot be established: "+st, why, map[string]string{"state": st})
 	}
@@ -327,6 +362,9 @@ func C16(r *ev.Run) {
 		var env *dbgEnv
 		used := 0
 		for _, c := range cs {
+			if broken >= 12 {
+				break // enough to report; going on would only wait for more time bounds
+			}
 			if env == nil || used > 150 {
 				if env != nil {
 					env.close()
@@ -359,7 +397,7 @@ func C16(r *ev.Run) {
 	}
 	// 2. random command sequences which follow the thread through its states (direction B)
 	walks := pick(tier, 1500, 20000)
-	for w := 0; w < walks; w++ {
+	for w := 0; w < walks && broken < 12; w++ {
 		st := states[1+rng.Intn(len(states)-2)]
 		if w%10 == 0 {
 			st = "fresh"
@@ -412,7 +450,7 @@ func C16(r *ev.Run) {
 			continue
 		}
 		badRecs[idx] = true
-		sig := map[int]string{1: "C16 fault in command " + rec.C + " in state " + rec.St + ": " + firstWords(rec.detail, 7), 2: "C16 result of " + rec.C + " is not JSON-encodable in state " + rec.St,
+		sig := map[int]string{1: "C16 fault in command " + rec.C + " in state " + rec.St + ": " + firstWords(goidRe.ReplaceAllString(rec.detail, "goroutine"), 5), 2: "C16 result of " + rec.C + " is not JSON-encodable in state " + rec.St,
 			3: "C16 debugger does not answer after " + rec.C + " in state " + rec.St}[clause]
 		r.Violation(sig, fmt.Sprintf("state %s, line %q: class=%s json=%v alive=%v %s", rec.St, rec.line, rec.Class, rec.JSON, rec.Alive, headStr(rec.detail, 300)), rec)
 	}
